@@ -209,6 +209,51 @@ theorem content_needs_generation (p : Prin) (owner : Nat) (log : List Item) (h :
     rw [sem_front] at hlt; rw [sem_pub] at hmem
     exact ⟨tree, g, hlt, hmem⟩
 
+/-! ## honest participants: the builder's records are well formed, so nothing above is vacuous or conditional for them -/
+
+/-- every log produced by the (model of the) real record builder from honest operations is accepted
+by the validator and carries honest payloads -/
+theorem honest_logs_wf (owner : Nat) (ops : List Op) (h : ∀ op ∈ ops, op.sane) :
+    WF owner (honestLog owner ops) :=
+  wf_buildLog ops (G0 owner) h
+
+/-- hence, for every history of honest operations, unconditionally: members hold every generation and
+every account's key map is exactly what it can derive -/
+theorem honest_history (owner : Nat) (ops : List Op) (h : ∀ op ∈ ops, op.sane) (me g : Nat) :
+    (me ∈ (gstate owner (honestLog owner ops)).members →
+      view me owner (honestLog owner ops) = some (List.replicate (gstate owner (honestLog owner ops)).ngen true))
+    ∧ ∃ hasRev, view me owner (honestLog owner ops) = some hasRev ∧
+        (hasGen hasRev g = true ↔ Derives (.acc me) owner (honestLog owner ops) (.rk g)) :=
+  ⟨member_has_all_keys me owner _ (honest_logs_wf owner ops h),
+   view_matches_knows me owner _ (honest_logs_wf owner ops h) g⟩
+
+/-- the batch builder after fix F-keys-batch-revoke-keeps-key (revokes first, revoked invites excluded
+from the removal's rotation): the key of an invite revoked by the batch does not open the generation
+the batch introduces — the record-granular statement for revoked invites -/
+theorem batch_revoke_excluded (owner i : Nat) (pre : List Item) (rm : List Nat)
+    (h : WF owner (pre ++ [.revoke i, buildRotate (gstep (gstate owner pre) (.revoke i)) rm])) :
+    ¬ Derives (.inv i) owner (pre ++ [.revoke i, buildRotate (gstep (gstate owner pre) (.revoke i)) rm])
+        (.rk (gstate owner pre).ngen) := by
+  apply revoked_invite_cannot_derive i owner pre _ h _ _ (Nat.le_refl _)
+  intro k h1 h2
+  have h2' : k ≤ 2 := h2
+  rw [gstate, gFrom_append]
+  have : k = 1 ∨ k = 2 := by omega
+  rcases this with rfl | rfl
+  · exact not_open_after_revoke _ i
+  · show i ∉ (gstep (gstep (gFrom (G0 owner) pre) (.revoke i)) (buildRotate _ rm)).openIds
+    rw [buildRotate, openIds_rotate]
+    exact not_open_after_revoke _ i
+
+/-- and that is what `buildOp` emits for such a batch -/
+theorem batch_builder_shape (g : G) (i : Nat) (rm : List Nat) :
+    buildOp g (.batchRevokeRemove [i] rm) = [] ∨
+    buildOp g (.batchRevokeRemove [i] rm) = [.revoke i, buildRotate (gstep g (.revoke i)) rm] := by
+  simp only [buildOp]
+  split
+  · right; simp [gFrom]
+  · left; rfl
+
 /-! ## why the guard of fix F-keys-permchange-readmit is needed -/
 
 /-- With a bare permission change re-admitting an account (`Item.grant`, accepted by the validator
@@ -247,5 +292,12 @@ example : ∀ k, 1 ≤ k → k ≤ (exLog.drop 3).length → 1 ∉ (gstate 0 (ex
   have : k = 1 ∨ k = 2 ∨ k = 3 ∨ k = 4 ∨ k = 5 ∨ k = 6 := by omega
   rcases this with rfl | rfl | rfl | rfl | rfl | rfl <;> decide
 example : buildData false (currentTreeKey 7 [false, true]) 5 = .error .missingEncryptKey := rfl
+-- the same history as produced by the honest builder (up to the order of recipients)
+def exOps : List Op := [.invite 0 true, .join 1, .write 7 41, .rotate [1], .join 2, .batchRevokeRemove [0] [], .drop 2, .write 7 42]
+example : ∀ op ∈ exOps, op.sane := by
+  intro op h
+  simp only [exOps, List.mem_cons, List.not_mem_nil, or_false] at h
+  rcases h with rfl | rfl | rfl | rfl | rfl | rfl | rfl | rfl <;> simp [Op.sane]
+example : (gstate 0 (honestLog 0 exOps)).ngen = 3 ∧ view 1 0 (honestLog 0 exOps) = some [false, false, true] := by decide
 
 end AnySync.Keys
